@@ -33,22 +33,22 @@ CLAIMED = {
     },
     "C09": {
         "engine": "E3 guardfx (+E1 order)",
-        "technique": "static analysis: guard-dominates-effect over MIR CFG, constant-store dataflow on SessionParams, post-meta ordering of log pruning",
-        "text": "Three clauses: an unservable rollback returns before any mutation; the rollback's own commit never records a delta nor takes the global guard; log pruning/truncation happens only after the meta switch-over. Restored values are not decided.",
+        "technique": "static analysis: guard-dominates-effect over MIR CFG, constant-store dataflow on SessionParams, post-meta ordering of log pruning, who-may-mutate ownership of the in-memory log",
+        "text": "Three clauses: an unservable rollback returns before any mutation; the rollback's own commit never records a delta nor takes the global guard; log pruning/truncation happens only after the meta switch-over; the in-memory log is mutated only by one-record push/pop operations of its owner type, each reachable only from its listed owners. Restored values are not decided.",
         "design_ref": "DESIGN.md 4 (E3), 5 (C09)",
         "note": _NOTE,
     },
     "C11": {
         "engine": "E3 guardfx",
-        "technique": "static analysis: guard-dominates-effect over MIR CFG of the overlay commit entry points",
-        "text": "Refusal clause only: committing an overlay is gated by the parent-marker, lock and previous-root checks before any effect, including the committed-status flip that descendants consult. Overlay/commit behavioural equivalence is not decided.",
+        "technique": "static analysis: guard-dominates-effect over MIR CFG of the overlay commit entry points; finite-domain evaluation (MIR interpretation over the three status values) of the chain-completeness predicate; who-may-store on the status word",
+        "text": "Refusal clause only: committing an overlay is gated by the parent-marker, lock and previous-root checks before any effect, including the committed-status flip that descendants consult; LiveOverlay::new refuses a chain exactly when the oldest supplied ancestor's parent is not COMMITTED (decided by enumerating the status domain); the status word only moves LIVE->DROPPED or ->COMMITTED. Overlay/commit behavioural equivalence is not decided.",
         "design_ref": "DESIGN.md 4 (E3), 5 (C11)",
         "note": _NOTE,
     },
     "C12": {
         "engine": "E3 guardfx (+E8 witness)",
-        "technique": "static analysis: guard-dominates-effect (dominance + refusal-edge reachability) over MIR CFG of the commit entry points",
-        "text": "In all four commit entry points and Rollback::commit_nonblocking every refusal/deferral guard dominates every effect and no effect is reachable from a refusal edge; holds for all paths, hence all competing-changeset histories and schedules. What a successful commit writes is not decided.",
+        "technique": "static analysis: guard-dominates-effect (dominance + refusal-edge reachability) over MIR CFG of the commit entry points; forward field-state dataflow for hand-back integrity",
+        "text": "In all four commit entry points and Rollback::commit_nonblocking every refusal/deferral guard dominates every effect and no effect is reachable from a refusal edge; holds for all paths, hence all competing-changeset histories and schedules; a changeset handed back by a deferred non-blocking commit has had no field moved out, assigned or mutably borrowed (unless restored). What a successful commit writes is not decided.",
         "design_ref": "DESIGN.md 4 (E3), 5 (C12)",
         "note": _NOTE,
     },
@@ -106,6 +106,7 @@ ENGINES = [
     {"name": "E1 syncorder", "path": "rules/syncorder.py", "serves_properties": ["C03", "C04", "C17", "C09"], "kind_free_text": "ordering/durability/write-discipline rules over the sync protocol (dominance in Ok-pruned CFG, strand model)"},
     {"name": "E2 errflow", "path": "rules/errflow.py", "serves_properties": ["C14"], "kind_free_text": "error-discipline dataflow"},
     {"name": "E3 guardfx", "path": "rules/guardfx.py", "serves_properties": ["C09", "C11", "C12", "C14"], "kind_free_text": "guard-dominates-effect"},
+    {"name": "E3b handback / logowner / statusdom", "path": "rules/handback.py", "serves_properties": ["C12", "C09", "C11"], "kind_free_text": "hand-back integrity dataflow (handback.py), ownership of the in-memory rollback log (logowner.py), finite-domain evaluation of overlay status predicates (statusdom.py)"},
     {"name": "E4 lockgraph", "path": "rules/lockgraph.py", "serves_properties": ["C15"], "kind_free_text": "lock-order graph and access-lock rules"},
     {"name": "E5 panicfree", "path": "rules/panicfree.py", "serves_properties": ["C18"], "kind_free_text": "panic-site inventory with guard/invariant discharge"},
     {"name": "E5-T termination", "path": "rules/termination.py", "serves_properties": ["C18"], "kind_free_text": "loop classification (finite iterator types, counter / pop structure), recursion measure"},
